@@ -143,6 +143,7 @@ func (etx *EVMTransaction) NewEVM() *ethvm.EVM {
 		BlockNumber: new(big.Int).SetInt64(etx.header.GetHeight()),
 		Time:        new(big.Int).SetInt64(etx.header.Time.Unix()),
 		Difficulty:  new(big.Int).Set(DefaultDifficulty), // 0 or 1, does not matter, api show 1, so let say it here as 1
+		BaseFee:     new(big.Int), // there is no fee market, but with the London rules on the BASEFEE opcode reads it
 	}
 
 	ethConfig := EthereumConfig(etx.header.ChainID)
